@@ -448,7 +448,17 @@ def _finish_path(ob, params, pid, ctx, out, st, listed):
                 ok = False
                 n_feasible = None
                 base = model
-                for attempt in range(4):
+                # first: a model that satisfies every top-level inequality of the path condition with a margin
+                for eps in (1e-3, 1e-6):
+                    cand = _interior_model(ctx, eps)
+                    if cand is None:
+                        continue
+                    inputs2 = symx.model_inputs(ctx, cand)
+                    conc2, _ = run_concrete(ob, params, inputs2)
+                    if conc2 is not None and obs_equal(norm_obs(out.obs, cand), conc2["obs"]):
+                        ok = True
+                        break
+                for attempt in range(0 if ok else 4):
                     alt = _alt_model(ctx, base, attempt)
                     if alt is None:
                         break
@@ -538,6 +548,46 @@ def _alt_model(ctx, model, attempt):
         return ctx.solver.model() if r == z3.sat else None
     finally:
         ctx.solver.pop()
+
+
+def _strengthen(a, eps):
+    """a top-level (possibly negated) arithmetic comparison, tightened by eps; anything else unchanged"""
+    neg = False
+    t = a
+    if z3.is_not(t):
+        neg, t = True, t.arg(0)
+    if not (z3.is_app(t) and t.num_args() == 2 and z3.is_arith(t.arg(0))):
+        return a
+    x, y = t.arg(0), t.arg(1)
+    if z3.is_int(x) and z3.is_int(y):
+        return a
+    k = t.decl().kind()
+    e = z3.RealVal(str(Fraction(eps).limit_denominator(10**9)))
+    lt, le, gt, ge = z3.Z3_OP_LT, z3.Z3_OP_LE, z3.Z3_OP_GT, z3.Z3_OP_GE
+    if (k in (lt, le) and not neg) or (k in (gt, ge) and neg):
+        return x + e <= y
+    if (k in (gt, ge) and not neg) or (k in (lt, le) and neg):
+        return x >= y + e
+    if k == z3.Z3_OP_DISTINCT or (k == z3.Z3_OP_EQ and neg):
+        return z3.Or(x + e <= y, x >= y + e)
+    return a
+
+
+def _interior_model(ctx, eps):
+    """A model of the current path in which every top-level inequality holds with margin eps (None if there is none)."""
+    s2 = z3.Solver()
+    s2.set("timeout", 5000)
+    for a in ctx.solver.assertions():
+        if z3.is_and(a):
+            for c in a.children():
+                s2.add(_strengthen(c, eps))
+        else:
+            s2.add(_strengthen(a, eps))
+    t0 = time.time()
+    r = s2.check()
+    ctx.t_solver += time.time() - t0
+    ctx.n_checks += 1
+    return s2.model() if r == z3.sat else None
 
 
 def _perturbed_model(ctx, m1, rng, scale, only=None):
